@@ -28,7 +28,8 @@ def replay(spec):
         from .util import unfrac
         v = unfrac(spec.get("values", {}))
         pts = [(float(v.get("kf", 0.6)) or 0.6, float(v.get("kr", 0.9)) or 0.9, float(v.get("kd", 0.3)) or 0.3, float(v.get("A", 1.0)), float(v.get("B", 3.0)))]
-        pts += [(0.6, 0.9, 0.3, 1.0, 3.0), (0.6, 0.9, 0.3, 4.0, 0.5), (2.0, 0.25, 1.5, 0.0, 2.0)]       # backward flux, forward flux, A exhausted
+        pts += [(0.6, 0.9, 0.3, 1.0, 3.0), (0.6, 0.9, 0.3, 4.0, 0.5), (2.0, 0.25, 1.5, 0.0, 2.0),       # backward flux, forward flux, A exhausted
+                (4000.0, 2500.0, 1500.0, 1.0, 3.0), (0.1, 1e5, 0.1, 2.0, 0.001)]                           # large and very unequal parameter values
         for kf, kr, kd, A_, B_ in pts:
             Mr = Model(species=["A", "B"], parameters=[("kf", kf), ("kr", kr), ("kd", kd)],
                        reactions=[(["A"], ["B"], "general", {"rate": "kf*A - kr*B"}), (["B"], [], "massaction", {"k": "kd"})])
@@ -39,11 +40,11 @@ def replay(spec):
             wantJ = np.zeros((2, 2))
             wantJ[ia, ia], wantJ[ia, ib], wantJ[ib, ia], wantJ[ib, ib] = -kf, kr, kf, -kr - kd
             gj = np.asarray(py_get_jacobian(Mr, list(x), method=method), dtype=float)
-            if not np.allclose(gj, wantJ, rtol=0, atol=1e-7):
+            if not np.allclose(gj, wantJ, rtol=1e-7, atol=1e-7):
                 problems.append("kf=%s kr=%s kd=%s at A=%s B=%s: jacobian[%s] = %s, analytic %s" % (kf, kr, kd, A_, B_, method, gj.tolist(), wantJ.tolist()))
             for pn, wz in (("kf", {ia: -A_, ib: A_}), ("kr", {ia: B_, ib: -B_}), ("kd", {ia: 0.0, ib: -B_})):
                 gz = np.asarray(py_get_sensitivity_to_parameter(Mr, list(x), pn, method=method), dtype=float)
-                if not np.allclose(gz, [wz[0], wz[1]], rtol=0, atol=1e-7):
+                if not np.allclose(gz, [wz[0], wz[1]], rtol=1e-7, atol=1e-7):
                     problems.append("kf=%s kr=%s kd=%s at A=%s B=%s: d f/d %s [%s] = %s, analytic %s" % (kf, kr, kd, A_, B_, pn, method, gz.tolist(), [wz[0], wz[1]]))
             now = dict(Mr.get_parameter_dictionary())
             if abs(now["kf"] - kf) > 1e-12 or abs(now["kr"] - kr) > 1e-12 or abs(now["kd"] - kd) > 1e-12:
